@@ -130,6 +130,29 @@ fn targeted() -> &'static Vec<Case> {
                     }
                 }
             }
+            // (c') long literal lists with ties in different representations around the hole (a sort or selection that takes
+            // another path for literal-only lists sees @ as a literal and (E) as a compound argument)
+            let (tie, subs): (Vec<&str>, Vec<&str>) = match ev {
+                Ev::Num => (vec!["2", "2.0"], vec!["1.5+0.5", "1+1", "4/2", "2.5-0.5"]),
+                Ev::Dec => (vec!["2", "2.0", "2.00"], vec!["1.5+0.5", "1+1", "1.00+1.00"]),
+                Ev::F64 => (vec!["0", "(-0)"], vec!["0*(-1)", "1-1", "(-1)*0"]),
+                _ => (vec![], vec![]),
+            };
+            if !tie.is_empty() {
+                for f in &aggs {
+                    for n in [9usize, 17, 21, 33, 35, 65] {
+                        for pos in [0usize, n / 2, n - 1] {
+                            for shift in 0..tie.len() {
+                                let list: Vec<String> = (0..n).map(|i| if i == pos { "@".to_string() } else { tie[(i + shift) % tie.len()].to_string() }).collect();
+                                for e in &subs {
+                                    push(ev, format!("{}({})", f, list.join(",")), e.to_string());
+                                    push(ev, format!("{}({})*9007199254740993", f, list.join(",")), e.to_string());
+                                }
+                            }
+                        }
+                    }
+                }
+            }
             // (b) every unary context over every binary operation on boundary operands (fusion / peephole rewrites
             // that look through the brackets at the operation underneath)
             let mut unary: Vec<String> = fs.iter().filter(|f| f.arity == crate::vocab::Arity::One).map(|f| format!("{}(@)", f.name)).collect();
@@ -299,6 +322,28 @@ impl Prop for C20Prop {
             }
             let mut case = Case::new(ev, ctx, q);
             case.aux = vec![s];
+            return Some(case);
+        }
+        if ev != Ev::Cpx && c.below(8) == 0 {
+            // a long aggregate list of values with many ties across representations, the hole somewhere in it
+            let (vals, subs): (Vec<&str>, Vec<&str>) = match ev {
+                Ev::Num => (vec!["2", "2.0", "1.5", "3", "3.5", "1", "4", "2", "2.0", "9007199254740993", "9007199254740992.0"], vec!["1.5+0.5", "1+1", "4/2", "2.5-0.5", "3.0*1", "0.5+1"]),
+                Ev::Dec => (vec!["2", "2.0", "2.00", "1.5", "3", "3.50", "1", "4"], vec!["1.5+0.5", "1+1", "1.00+1.00", "7/2"]),
+                Ev::I64 => (vec!["2", "3", "1", "4", "2", "(0-2)"], vec!["1+1", "4/2", "6/2"]),
+                _ => (vec!["2", "1.5", "3", "3.5", "1", "4", "0", "(-0)", "(0/0)"], vec!["1.5+0.5", "0*(-1)", "1-1", "4/2"]),
+            };
+            let aggs: Vec<&str> = if ev == Ev::I64 { vec!["med", "median", "min", "max", "avg", "gcd", "lcm"] } else { vec!["med", "median", "min", "max", "avg"] };
+            let n = [9usize, 21, 33, 35, 65, 99][c.below(6) as usize];
+            let pos = c.below(n as u32) as usize;
+            let list: Vec<String> = (0..n).map(|i| if i == pos { "@".to_string() } else { vals[c.below(vals.len() as u32) as usize].to_string() }).collect();
+            let f = aggs[c.below(aggs.len() as u32) as usize];
+            let ctx = match c.below(3) {
+                0 => format!("{}({})", f, list.join(",")),
+                1 => format!("9007199254740993*{}({})", f, list.join(",")),
+                _ => format!("1/{}({})", f, list.join(",")),
+            };
+            let mut case = Case::new(ev, ctx, q);
+            case.aux = vec![subs[c.below(subs.len() as u32) as usize].to_string()];
             return Some(case);
         }
         let cp = ctx_profile(ev);
